@@ -12,6 +12,7 @@
    Text is the UTF-8 byte string; [cap] is the size of the read buffer handed to
    EventReceiver::poll_read by copy_chunked_async (65528 in the code). *)
 From SV Require Import Base.Bytes Spec.Sse Model.Event Proofs.EventP.
+From SV Require Import Generated.SourceParams Tie.EventTie.
 
 (* C11.1  block_parses_back: for every event the constructors can build (type without CR/LF):
    parsing its block followed by the blank line dispatches exactly one event, with its type and
@@ -204,6 +205,14 @@ Example c11_oversize_nonvacuous :
             wst s = WReaderErr /\ wire s = [] /\ length (accepted s) = 2%nat /\ is_connected s 0 = true.
 Proof. exact oversize_example. Qed.
 
+(* C11.src  literals re-read from the source ON THIS RUN: the capacity of the event channel
+   (src/response.rs) and the field formats of Event::write_to (src/event.rs) are the model's *)
+Theorem c11_source_queue_capacity : N.of_nat queue_cap = src_event_queue_cap.
+Proof. exact event_queue_cap_tie. Qed.
+Theorem c11_source_event_formats :
+  src_event_type_fmt = (t_event, [10]) /\ src_event_data_fmt = (t_data, [10]).
+Proof. exact event_formats_tie. Qed.
+
 Print Assumptions c11_block_parses_back.
 Print Assumptions c11_no_injection.
 Print Assumptions c11_stream_parses_back.
@@ -227,3 +236,5 @@ Print Assumptions c11_oversize_event_aborts_stream.
 Print Assumptions c11_lossless_modulo_oversize.
 Print Assumptions c11_oracle_sound_modulo_oversize.
 Print Assumptions c11_oversize_event_lost_refuted.
+Print Assumptions c11_source_queue_capacity.
+Print Assumptions c11_source_event_formats.
